@@ -189,6 +189,22 @@ Theorem C18_source_tracer :
 Proof. exact source_tracer. Qed.
 Print Assumptions C18_source_tracer.
 
+(** A `LogTracer` init attempted in a process that already has a logger fails and changes nothing: `log`'s max level
+    stays what it was (the builder publishes its level only after the install succeeded — read off `Builder::init` by the
+    translator on every run), so no record is lost in either direction because of the attempt. *)
+Theorem C18_failed_init_changes_nothing :
+  gen_builder_max_before_install = false /\
+  forall cur w, init_again_log_max cur w = cur.
+Proof. exact failed_init_changes_nothing. Qed.
+Print Assumptions C18_failed_init_changes_nothing.
+
+Theorem C18_failed_init_other_order_refuted :
+  init_again_log_max (Some Trace) (Some (Some Error)) = Some Trace /\
+  (let other cur (w : option (option lv)) := match w with Some f => f | None => gen_builder_default_max end in
+   other (Some Trace) (Some (Some Error)) = Some Error /\ other (Some Trace) (Some (Some Error)) <> Some Trace).
+Proof. exact failed_init_other_order_refuted. Qed.
+Print Assumptions C18_failed_init_other_order_refuted.
+
 Theorem C18_source_event :
   gen_cs_name = log_event_name /\ gen_cs_target = log_target /\
   gen_field_names = [MESSAGE; LOG_TARGET_F; LOG_MODULE_F; LOG_FILE_F; LOG_LINE_F] /\
